@@ -35,6 +35,44 @@
 (*                  element - right for an ordinary error, but the time limit *)
 (*                  is the limit of the OUTERMOST invocation: when it strikes *)
 (*                  inside a nested one the enclosing code must end too.     *)
+(*   xhe xht xhc    INNER runs in the MESSAGE HANDLER of an xpcall (innermost    *)
+(*                  wrapper only: the handler holds a body).  WHERE the      *)
+(*                  endless code sits relative to a protected call decides   *)
+(*                  in what CONTEXT it runs:                                 *)
+(*                    xhe  xpcall(function() error('x') end, function(e)     *)
+(*                         INNER end): the handler is entered for an         *)
+(*                         ordinary error, outside any hook; the count hook  *)
+(*                         fires inside it, the error raised there re-enters *)
+(*                         the handler INSIDE the hook                       *)
+(*                    xht  xpcall(function() while true do end end,          *)
+(*                         function(e) INNER end): the handler would be      *)
+(*                         entered for the time limit error itself, at the   *)
+(*                         point of the error = inside the count hook        *)
+(*                    xhc  xpcall(function() coroutine.wrap(function() while *)
+(*                         true do end end)() end, function(e) INNER end):   *)
+(*                         the limit strikes in a coroutine's BODY and is    *)
+(*                         handed on by library code in the RESUMER: the     *)
+(*                         handler would be entered for the time limit error *)
+(*                         outside a hook                                    *)
+(*                  Lua calls no hook while a hook - or anything called from *)
+(*                  one - is running ("in-hook" context: frame hdlh of the   *)
+(*                  machine): code there is out of reach of the time limit.  *)
+(*                  Demanded design: the module's handler is never run for   *)
+(*                  the time limit error (a guard answers in its place).     *)
+(*   mts mix        INNER runs in a __tostring / __index metamethod called   *)
+(*                  from module code; lix: in the __index metamethod of the  *)
+(*                  module table, called by _lua_invoke's mod[fn_name] -     *)
+(*                  OUTSIDE the library's pcall(fn, frame); load: at chunk   *)
+(*                  level while the module is being loaded (the library's    *)
+(*                  own host pcall(initfn)); coy: in the RESUMER of a        *)
+(*                  coroutine that was created and is suspended.  All        *)
+(*                  transparent for the time limit (outermost only: lix load)*)
+(*   hc:<helper>:<value>   <helper>(<value>); INNER - a call of one of the   *)
+(*                  sandbox BOOKKEEPING helpers that are exported into every *)
+(*                  module environment (HelperNames: enumerated from the     *)
+(*                  live module environment by the harness, env C07_HELPERS) *)
+(*                  with nil / false / a table / a number.  Demanded: no such *)
+(*                  call has any influence on the time limit.                *)
 (* bodies: tight (while true do end), lib (loop calling string functions),  *)
 (* tailrec (infinite tail recursion), deeprec (unbounded non-tail recursion: *)
 (* ends quickly with an ordinary "stack overflow" error), invloop (a loop    *)
@@ -58,16 +96,29 @@
 (*                           of THAT invocation and the enclosing module     *)
 (*                           carries on: one shot -> returns its own value   *)
 (*                           after the limit; in a loop -> never ends        *)
-EXTENDS Naturals, Sequences, FiniteSets, TLC
+(*   XpcallHandlerRunsInHook a module's xpcall message handler is run for    *)
+(*                           the time limit error too: entered from the      *)
+(*                           count hook it runs where no hook is called any  *)
+(*                           more - a handler that does not return is never  *)
+(*                           stopped (implied by PcallCatchesTimeout: the    *)
+(*                           host xpcall)                                    *)
+(*   EnvStackHelperAcceptsNil  the helper that pushes an environment on the  *)
+(*                           Python-side stack accepts nil: the sandbox then *)
+(*                           believes that no invocation is in progress, the *)
+(*                           hook and the re-raise of the protected calls    *)
+(*                           (both test _python_top_env() ~= nil) go inert   *)
+EXTENDS Naturals, Sequences, FiniteSets, TLC, Json, IOUtils
 
 CONSTANTS
   Dev,        \* deviations switched on
   B,          \* instructions between two hook firings (abstract, >= 1)
   RecMax      \* steps after which deeprec overflows the stack (< B)
 
-DevNames == {"PcallCatchesTimeout", "CoroutineNoHook", "HookControlExported", "NestedInvokeResetsHook", "NestedTimeoutInBand"}
+DevNames == {"PcallCatchesTimeout", "CoroutineNoHook", "HookControlExported", "NestedInvokeResetsHook", "NestedTimeoutInBand",
+             "XpcallHandlerRunsInHook", "EnvStackHelperAcceptsNil"}
 Limit0 == 1          \* configured limit (clock granules); Start = 0, deadline D = 1; one granule stands for any configured limit in (0, 1] s, fractions included (harness limit_of)
 Big == 9             \* a limit that does not expire within the horizon (59 s / 60 s)
+Never == 99          \* "limit" of a sandbox that believes no invocation is in progress: hook and re-raise inert
 Horizon == 3
 D == Limit0
 
@@ -78,7 +129,36 @@ Loops == {"ploop", "xloop", "xlooph"}
 CoKinds == {"cowrap", "cores"}
 Controls == {"clear", "rearm", "inv"}
 NestedKinds == {"ninv", "ninvt", "ninvx"}
-AllKinds == Catchers \cup Loops \cup {"cowrap"} \cup Controls \cup NestedKinds
+HandlerKinds == {"xhe", "xht", "xhc"}     \* INNER is the message handler of an xpcall
+MetaKinds == {"mts", "mix"}               \* INNER is a metamethod called from module code
+LibKinds == {"lix", "load"}               \* INNER is run by _lua_invoke itself, outside pcall(fn, frame)
+Transparent == MetaKinds \cup LibKinds \cup {"coy"}
+WhereKinds == HandlerKinds \cup Transparent
+\* the bookkeeping helpers of a module environment: the live names when the harness supplies them
+HelperNamesDefault == <<"_python_append_env", "_python_top_env", "_lua_reset_env", "_save_mod", "_cached_mod", "_new_loader",
+                        "_new_loadData", "_new_loadJsonData", "_lua_set_timeout", "_lua_clear_timeout_hook",
+                        "_lua_set_python_loader", "_lua_io_flush", "_mw_clone", "_orig_format", "_orig_gsub", "_orig_insert",
+                        "_orig_next", "_orig_tostring">>
+HelperSeq == IF "C07_HELPERS" \in DOMAIN IOEnv THEN JsonDeserialize(IOEnv.C07_HELPERS) ELSE HelperNamesDefault
+HelperNames == {HelperSeq[i] : i \in DOMAIN HelperSeq}
+ArgVals == {"nil", "false", "table", "number"}
+HC(h, v) == "hc:" \o h \o ":" \o v
+HelperKinds == {HC(h, v) : h \in HelperNames, v \in ArgVals}
+\* the helper whose role is to push an environment on the stack _python_top_env() looks at
+PushHelpers == {"_python_append_env"}
+\* calls after which the sandbox believes that no invocation is in progress
+InertCalls(Dv) == IF "EnvStackHelperAcceptsNil" \in Dv THEN {HC(h, "nil") : h \in PushHelpers \cap HelperNames} ELSE {}
+CoreKinds == Catchers \cup Loops \cup {"cowrap"} \cup Controls \cup NestedKinds
+AllKinds == CoreKinds \cup WhereKinds \cup HelperKinds
+
+\* the grammar: a handler holds a body (innermost wrapper; not the loop of nested invocations); code run by
+\* _lua_invoke itself is outermost and has no frame object (no nested invocation in it); helper calls are
+\* combined with everything that stays inside ONE invocation
+NeedsFrame(b, Wr) == b = "invloop" \/ \E i \in DOMAIN Wr : Wr[i] \in NestedKinds \cup {"inv"}
+WellFormed(b, Wr) ==
+  /\ \A i \in DOMAIN Wr : Wr[i] \in HandlerKinds => i = Len(Wr) /\ b # "invloop"
+  /\ \A i \in DOMAIN Wr : Wr[i] \in LibKinds => i = 1 /\ ~NeedsFrame(b, Wr)
+  /\ (\E i \in DOMAIN Wr : Wr[i] \in HelperKinds) => ~NeedsFrame(b, Wr)
 
 (* ------------------------------------------------------------------ *)
 (* what the property demands of a program                              *)
@@ -86,8 +166,9 @@ AllKinds == Catchers \cup Loops \cup {"cowrap"} \cup Controls \cup NestedKinds
 HasLoop(W) == \E i \in DOMAIN W : W[i] \in Loops
 \* an ordinary error ends at the nearest protected call of the module - or at the boundary of the
 \* nested invocation it happened in (in-band error element, the enclosing module goes on)
-HasCatcher(W) == \E i \in DOMAIN W : W[i] \in Catchers \cup NestedKinds
-NonTerminating(b, W) == b \in Infinite \/ HasLoop(W)
+HasCatcher(W) == \E i \in DOMAIN W : W[i] \in Catchers \cup NestedKinds \cup HandlerKinds
+\* (the protected function of xht / xhc is an endless loop itself)
+NonTerminating(b, W) == b \in Infinite \/ HasLoop(W) \/ \E i \in DOMAIN W : W[i] \in {"xht", "xhc"}
 \* non-terminating code must end as the in-band timeout element; terminating
 \* code of the grammar ends on its own (error element, or normal return when
 \* the overflow error is caught)
@@ -115,6 +196,14 @@ Caught(r, Dv) == CASE r = "T" -> IF "PcallCatchesTimeout" \in Dv THEN "N" ELSE "
 NestedResult(r, Dv) == CASE r = "T" -> IF "NestedTimeoutInBand" \in Dv THEN "A" ELSE "T"
                          [] r = "E" -> "N"
                          [] OTHER -> r
+
+\* "in-hook" context: Lua calls no hook while a hook, or a handler entered from a hook, is running on that thread
+InHookS(s) == [s EXCEPT !.hk = FALSE, !.mh = IF s.main THEN FALSE ELSE s.mh]
+\* the module's message handler is run for the time limit error (the host xpcall does that too)
+Unguarded(Dv) == "XpcallHandlerRunsInHook" \in Dv \/ "PcallCatchesTimeout" \in Dv
+\* what xpcall makes of a handler that ran after the deadline and ended with r (an error in the handler ends
+\* as "error in error handling"): false + a message, which the repaired xpcall answers by raising the timeout
+AfterDeadline(r, Dv) == IF r = "H" THEN "H" ELSE IF "PcallCatchesTimeout" \in Dv THEN "N" ELSE "T"
 
 \* Sem = [rs |-> set of possible results, s |-> hook state afterwards].  The only
 \* source of non-determinism is WHERE the count hook fires in a catch-and-continue loop
@@ -170,6 +259,25 @@ Sem(b, W, i, s, Dv) ==
                          ELSE IF repaired THEN (IF x.s.big THEN {"H"} ELSE {"T"} \cup (IF absorbing THEN {"H"} ELSE {}))
                          ELSE {"H"} \cup (IF Eff(x.s) THEN {"T"} ELSE {})),
             s |-> x.s]
+      [] w \in HandlerKinds ->
+           LET \* the handler runs INNER, entered outside a hook (late: the deadline has passed already)
+               Normal(late) ==
+                 UNION {CASE r = "T" ->      \* the hook fires in the handler: the error re-enters it INSIDE the hook
+                               IF Unguarded(Dv) THEN {AfterDeadline(q, Dv) : q \in Sem(b, W, i + 1, InHookS(s), Dv).rs} ELSE {"T"}
+                          [] r = "E" -> {IF late THEN AfterDeadline("E", Dv) ELSE "N"}
+                          [] OTHER -> {r} : r \in Sem(b, W, i + 1, s, Dv).rs}
+               co == [hk |-> "CoroutineNoHook" \notin Dv, mh |-> s.mh, big |-> s.big, main |-> FALSE]
+           IN [rs |-> CASE w = "xhe" -> Normal(FALSE)
+                        [] w = "xht" ->    \* the protected function loops on the current thread
+                             IF ~Eff(s) THEN {"H"}
+                             ELSE IF Unguarded(Dv) THEN {AfterDeadline(q, Dv) : q \in Sem(b, W, i + 1, InHookS(s), Dv).rs}
+                             ELSE {"T"}
+                        [] w = "xhc" ->    \* ... in a coroutine; its resumer hands the error on
+                             IF ~Eff(co) THEN {"H"} ELSE IF Unguarded(Dv) THEN Normal(TRUE) ELSE {"T"},
+               s |-> s]
+      [] w \in Transparent -> Sem(b, W, i + 1, s, Dv)
+      [] w \in HelperKinds ->
+           Sem(b, W, i + 1, IF w \in InertCalls(Dv) THEN [s EXCEPT !.big = TRUE] ELSE s, Dv)
       [] w = "clear" ->
            Sem(b, W, i + 1,
                IF "HookControlExported" \in Dv
@@ -206,7 +314,11 @@ VARIABLES
              \* ones), d = its index; a catch-and-continue loop has two frames: "loop" (the loop
              \* statement) and, while an iteration runs, "lpc" (its protected call); the frame of a
              \* nested invocation (k \in NestedKinds) is the boundary call_lua_sandbox draws: what
-             \* is above it runs in the nested _lua_invoke on the main Lua thread
+             \* is above it runs in the nested _lua_invoke on the main Lua thread; an xpcall whose INNER is
+             \* its message handler has ONE frame that changes its kind: xpfe / xpft / xpfc while the
+             \* protected function runs (raising at once / looping / looping in a coroutine), hdl / hdlt
+             \* while the handler runs after being entered outside a hook for an ordinary error / for the
+             \* time limit error, hdlh while it runs after being entered INSIDE the count hook
   err,       \* none | timeout | lua   (error being propagated)
   hooked,    \* thread -> BOOLEAN: count hook installed on that Lua thread
   limit,     \* the shared _lua_current_max_time
@@ -227,7 +339,14 @@ Threads == 0..3
 Top == stack[Len(stack)]
 Depth == IF stack = <<>> THEN 0 ELSE Top.d
 AtLoopLevel == stack # <<>> /\ Top.k = "loop"
-InBody == status = "running" /\ phase = "run" /\ Depth = Len(W) /\ ~AtLoopLevel
+PFFrames == {"xpfe", "xpft", "xpfc"}
+HdlFrames == {"hdl", "hdlt", "hdlh"}
+CoFrames == CoKinds \cup {"xpfc"}
+InPF == stack # <<>> /\ Top.k \in PFFrames
+InBody == status = "running" /\ phase = "run" /\ Depth = Len(W) /\ ~AtLoopLevel /\ ~InPF
+\* the current thread runs a hook or something called from one: Lua calls no hook there (a handler is the
+\* innermost wrapper, so it is the top frame whenever it runs)
+InHook == stack # <<>> /\ Top.k = "hdlh"
 \* the benign nested invocation of body invloop is running
 InNestedCall == InBody /\ prog.body = "invloop" /\ spin = 1
 \* the current Lua thread: a nested invocation runs on the main thread (0), whatever thread called
@@ -235,8 +354,11 @@ InNestedCall == InBody /\ prog.body = "invloop" /\ spin = 1
 NBase == IF \E i \in DOMAIN stack : stack[i].k \in NestedKinds
          THEN CHOOSE i \in DOMAIN stack : stack[i].k \in NestedKinds /\ \A j \in DOMAIN stack : j > i => stack[j].k \notin NestedKinds
          ELSE 0
-Cur == IF InNestedCall \/ ~\E i \in DOMAIN stack : i > NBase /\ stack[i].k \in CoKinds
-       THEN 0 ELSE Cardinality({i \in DOMAIN stack : stack[i].k \in CoKinds})
+Cur == IF InNestedCall \/ ~\E i \in DOMAIN stack : i > NBase /\ stack[i].k \in CoFrames
+       THEN 0 ELSE Cardinality({i \in DOMAIN stack : stack[i].k \in CoFrames})
+\* the count hook of the current thread is installed and Lua would call it
+Counting == hooked[Cur] /\ ~InHook
+SetTop(k) == [stack EXCEPT ![Len(stack)] = [k |-> k, d |-> Top.d]]
 PyZero == [expand |-> 0, env |-> 0, frame |-> 0]
 \* call_lua_sandbox pushes expand_stack / lua_frame_stack, _lua_invoke the environment; popped on the way out
 PyUp(q) == [expand |-> q.expand + 1, env |-> q.env + 1, frame |-> q.frame + 1]
@@ -264,8 +386,8 @@ Push(k, d) == stack' = Append(stack, [k |-> k, d |-> d])
 \* the wrapper code itself runs (and counts instructions) on the current thread
 Enter ==
   /\ status = "running" /\ phase = "run" /\ (AtLoopLevel \/ Depth < Len(W))
-  /\ hooked[Cur] => budget > 0
-  /\ budget' = IF hooked[Cur] THEN budget - 1 ELSE budget
+  /\ Counting => budget > 0
+  /\ budget' = IF Counting THEN budget - 1 ELSE budget
   /\ IF AtLoopLevel
      THEN Push("lpc", Depth) /\ UNCHANGED <<hooked, limit, py>>      \* next iteration: pcall(function() ... end)
      ELSE LET w == W[Depth + 1] d == Depth + 1 t == Cur IN
@@ -275,8 +397,20 @@ Enter ==
             Push("loop", d) /\ UNCHANGED <<hooked, limit, py>>
        [] w \in CoKinds ->
             /\ Push(w, d)
-            /\ hooked' = [hooked EXCEPT ![Cardinality({j \in DOMAIN stack : stack[j].k \in CoKinds}) + 1] = "CoroutineNoHook" \notin Dev]
+            /\ hooked' = [hooked EXCEPT ![Cardinality({j \in DOMAIN stack : stack[j].k \in CoFrames}) + 1] = "CoroutineNoHook" \notin Dev]
             /\ UNCHANGED <<limit, py>>
+       [] w \in HandlerKinds ->   \* xpcall(<protected function>, function(e) INNER end): the protected function starts
+            /\ Push(CASE w = "xhe" -> "xpfe" [] w = "xht" -> "xpft" [] OTHER -> "xpfc", d)
+            /\ hooked' = IF w = "xhc"
+                         THEN [hooked EXCEPT ![Cardinality({j \in DOMAIN stack : stack[j].k \in CoFrames}) + 1] = "CoroutineNoHook" \notin Dev]
+                         ELSE hooked
+            /\ UNCHANGED <<limit, py>>
+       [] w \in Transparent ->
+            Push("seq", d) /\ UNCHANGED <<hooked, limit, py>>
+       [] w \in HelperKinds ->    \* _python_top_env() = nil from here on: hook and re-raise are inert
+            /\ Push("seq", d)
+            /\ limit' = IF w \in InertCalls(Dev) THEN Never ELSE limit
+            /\ UNCHANGED <<hooked, py>>
        [] w = "clear" ->
             /\ Push("seq", d)
             /\ hooked' = IF "HookControlExported" \in Dev THEN [hooked EXCEPT ![t] = FALSE] ELSE hooked
@@ -301,8 +435,8 @@ Enter ==
 \* one stretch of instructions of the body
 Step ==
   /\ InBody
-  /\ hooked[Cur] => budget > 0
-  /\ budget' = IF hooked[Cur] THEN budget - 1 ELSE budget
+  /\ Counting => budget > 0
+  /\ budget' = IF Counting THEN budget - 1 ELSE budget
   /\ spin' = 1 - spin
   /\ IF prog.body = "deeprec" /\ rec + 1 >= RecMax
      THEN phase' = "unwind" /\ err' = "lua" /\ rec' = 0
@@ -315,9 +449,23 @@ Step ==
      ELSE UNCHANGED <<py, hooked, limit>>
   /\ UNCHANGED <<prog, status, stack, checked, now, swallowed>>
 
+\* the protected function of an xpcall whose INNER is the message handler
+PFStep ==
+  /\ status = "running" /\ phase = "run" /\ InPF
+  /\ Counting => budget > 0
+  /\ budget' = IF Counting THEN budget - 1 ELSE budget
+  /\ IF Top.k = "xpfe"
+     THEN \* error('x'): Lua calls the message handler at the point of the error, outside any hook; once the
+          \* deadline has passed the guard answers in the place of the module's handler
+          IF ~Unguarded(Dev) /\ now > limit
+          THEN phase' = "unwind" /\ err' = "timeout" /\ UNCHANGED <<stack, spin>>
+          ELSE stack' = SetTop("hdl") /\ UNCHANGED <<phase, err, spin>>
+     ELSE spin' = 1 - spin /\ UNCHANGED <<stack, phase, err>>        \* while true do end
+  /\ UNCHANGED <<prog, status, hooked, limit, checked, now, swallowed, rec, py>>
+
 \* the count hook of the current thread: raises iff the deadline has passed
 HookFires ==
-  /\ status = "running" /\ phase = "run" /\ hooked[Cur] /\ budget = 0
+  /\ status = "running" /\ phase = "run" /\ Counting /\ budget = 0
   /\ IF now > limit   \* os.time() > start_time + _lua_current_max_time, start_time = 0
      THEN /\ budget' = B /\ UNCHANGED checked
           /\ IF InNestedCall     \* the error leaves the benign nested invocation of body invloop
@@ -326,9 +474,16 @@ HookFires ==
                   /\ IF "NestedTimeoutInBand" \in Dev
                      THEN swallowed' = TRUE /\ UNCHANGED <<phase, err>>   \* in-band element, the loop goes on
                      ELSE phase' = "unwind" /\ err' = "timeout" /\ UNCHANGED swallowed
-             ELSE phase' = "unwind" /\ err' = "timeout" /\ UNCHANGED <<spin, py, hooked, swallowed>>
-     ELSE budget' = B /\ checked' = TRUE /\ UNCHANGED <<phase, err, spin, py, hooked, swallowed>>
-  /\ UNCHANGED <<prog, status, stack, limit, now, rec>>
+                  /\ UNCHANGED stack
+             ELSE IF stack # <<>> /\ Top.k \in {"xpft", "xpfc", "hdl", "hdlt"} /\ Unguarded(Dev)
+             THEN \* the error is raised under an xpcall of the module: Lua calls the module's message handler
+                  \* at the point of the error - INSIDE the hook, unless it was raised in a coroutine and is
+                  \* handed on by its resumer.  An error raised in the handler enters the handler again.
+                  /\ stack' = SetTop(IF Top.k = "xpfc" THEN "hdlt" ELSE "hdlh")
+                  /\ UNCHANGED <<phase, err, spin, py, hooked, swallowed>>
+             ELSE phase' = "unwind" /\ err' = "timeout" /\ UNCHANGED <<stack, spin, py, hooked, swallowed>>
+     ELSE budget' = B /\ checked' = TRUE /\ UNCHANGED <<stack, phase, err, spin, py, hooked, swallowed>>
+  /\ UNCHANGED <<prog, status, limit, now, rec>>
 
 \* the clock.  Code that ends by itself ends in no time; while non-terminating code
 \* runs the clock advances, and (hook period << 1 s) the hook of a hooked thread gets
@@ -336,13 +491,14 @@ HookFires ==
 Tick ==
   /\ now < Horizon
   /\ status = "running" /\ phase = "run" /\ NonTerminating(prog.body, W)
-  /\ InBody \/ \E i \in DOMAIN stack : stack[i].k = "loop"   \* entering the wrappers takes no time
-  /\ hooked[Cur] => checked
+  /\ InBody \/ (InPF /\ Top.k # "xpfe") \/ \E i \in DOMAIN stack : stack[i].k = "loop"   \* entering the wrappers takes no time
+  /\ Counting => checked
   /\ now' = now + 1 /\ checked' = FALSE
   /\ UNCHANGED <<prog, status, phase, stack, err, hooked, limit, budget, swallowed, rec, spin, py>>
 
 Pop == stack' = SubSeq(stack, 1, Len(stack) - 1)
 
+CatchFrames == Catchers \cup {"lpc"} \cup PFFrames \cup HdlFrames
 \* the repaired protected calls re-raise once the deadline has passed
 Reraise == "PcallCatchesTimeout" \notin Dev /\ (err = "timeout" \/ now > limit)
 
@@ -372,9 +528,11 @@ Unwind ==
                      THEN phase' = "ret" /\ err' = "none" /\ swallowed' = (swallowed \/ err = "timeout")
                      ELSE UNCHANGED <<phase, err, swallowed>>
              ELSE /\ UNCHANGED <<py, hooked>>
-                  /\ IF Top.k \in Catchers \cup {"lpc"} /\ ~Reraise
-                     THEN phase' = "ret" /\ err' = "none" /\ swallowed' = (swallowed \/ err = "timeout")
-                     ELSE /\ err' = IF Top.k \in Catchers \cup {"lpc"} THEN "timeout" ELSE err
+                  \* (an xpcall whose handler ended with an error returns false like any protected call; if the
+                  \* handler had been entered for the time limit error, that error is lost with it)
+                  /\ IF Top.k \in CatchFrames /\ ~Reraise
+                     THEN phase' = "ret" /\ err' = "none" /\ swallowed' = (swallowed \/ err = "timeout" \/ Top.k \in {"hdlt", "hdlh"})
+                     ELSE /\ err' = IF Top.k \in CatchFrames THEN "timeout" ELSE err
                           /\ UNCHANGED <<phase, swallowed>>
   /\ UNCHANGED <<prog, limit, budget, checked, now, rec, spin>>
 
@@ -392,7 +550,7 @@ Ret ==
                      ELSE UNCHANGED <<py, hooked>>
   /\ UNCHANGED <<prog, err, limit, budget, checked, now, swallowed, rec, spin>>
 
-ProgNext == Invoke \/ Enter \/ Step \/ HookFires \/ Unwind \/ Ret
+ProgNext == Invoke \/ Enter \/ Step \/ PFStep \/ HookFires \/ Unwind \/ Ret
 LTNext == ProgNext \/ Tick
 Fair == WF_vars(ProgNext) /\ WF_vars(Tick)
 
